@@ -187,13 +187,13 @@ impl Nl {
                 && (seats[p].0 == State::Folding) == self.folded[p]
                 && (self.folded[p] || (seats[p].0 == State::Shoving) == self.allin[p])
         }) && g.pot() as i32 == self.total.iter().sum::<i32>()
-            && g.street() as isize as u8 == self.street
+            && { let gg = *g; catch(move || gg.street() as isize as u8) } == Some(self.street)
             && board_bits(g) == self.board
     }
     fn same_turn(&self, g: &Game) -> bool {
-        match (self.turn(), g.turn()) {
-            (NlTurn::Over, Turn::Terminal) | (NlTurn::Deal, Turn::Chance) => true,
-            (NlTurn::Player(p), Turn::Choice(q)) => p == q,
+        match (self.turn(), try_turn(g)) {
+            (NlTurn::Over, Some(Turn::Terminal)) | (NlTurn::Deal, Some(Turn::Chance)) => true,
+            (NlTurn::Player(p), Some(Turn::Choice(q))) => p == q,
             _ => false,
         }
     }
@@ -202,8 +202,8 @@ impl Nl {
 /// ---------------------------------------------------------------- candidates
 fn candidates(g: &Game, deal: &Deal, rng: &mut Rng, all_amounts: bool) -> Vec<Action> {
     let seats = g.verif_seats();
-    let top = match g.turn() {
-        Turn::Choice(p) => seats[p].1,
+    let top = match try_turn(g) {
+        Some(Turn::Choice(p)) => seats[p.min(1)].1,
         _ => seats[0].1.max(seats[1].1).max(3),
     };
     let mut v = vec![Action::Fold, Action::Check];
@@ -233,7 +233,7 @@ fn candidates(g: &Game, deal: &Deal, rng: &mut Rng, all_amounts: bool) -> Vec<Ac
     let full = bits(hand(Hand::mask()));
     let board = board_bits(g);
     let in_play = board | deal.h0 | deal.h1;
-    let st = (g.street() as isize as usize).min(2);
+    let st = { let gg = *g; catch(move || gg.street() as isize as usize).unwrap_or(0).min(2) };
     let want = if st == 0 { 3 } else { 1 };
     let fresh = rng.cards(want, full & !in_play);
     v.push(Action::Draw(hand(fresh))); // well-formed
@@ -277,7 +277,7 @@ fn off_deck_deals(g: &Game, deal: &Deal, rng: &mut Rng) -> Vec<Action> {
         return v;
     }
     let in_play = board_bits(g) | deal.h0 | deal.h1;
-    let st = (g.street() as isize as usize).min(2);
+    let st = { let gg = *g; catch(move || gg.street() as isize as usize).unwrap_or(0).min(2) };
     let want = if st == 0 { 3 } else { 1 };
     for k in 0..4 {
         let c = if k == 0 { 0u8 } else { rng.cards(1, missing).trailing_zeros() as u8 };
@@ -294,14 +294,14 @@ struct Ctx {
 /// probe one state: is_allowed on every candidate vs the oracle; apply under catch
 fn probe(cx: &mut Ctx, rng: &mut Rng, deal: &Deal, deal_id: u64, hist: &[Action], g: &Game, nl: &Nl, all_amounts: bool) {
     let full = bits(hand(Hand::mask()));
-    let key = (if g.turn() == Turn::Chance { deal_id } else { 0 }, betting_key(g));
+    let key = (if try_turn(g) == Some(Turn::Chance) { deal_id } else { 0 }, betting_key(g));
     if !cx.probed.insert(key) {
         return;
     }
     let name = format!("{} {} | {}", deal.h0, deal.h1, hist_tok(hist));
     cx.run.spec_checked += 1;
     if !nl.same_turn(g) {
-        cx.run.fail("turn", &format!("game {name}"), &format!("{:?}", nl.turn()), &turn_tok(g.turn()));
+        cx.run.fail("turn", &format!("game {name}"), &format!("{:?}", nl.turn()), &try_turn(g).map_or("panic".to_string(), turn_tok));
     }
     let cands = candidates(g, deal, rng, all_amounts);
     let extra = off_deck_deals(g, deal, rng);
@@ -385,6 +385,49 @@ fn probe(cx: &mut Ctx, rng: &mut Rng, deal: &Deal, deal_id: u64, hist: &[Action]
     }
 }
 
+/// one history: lockstep with the rules machine, probes at every state, correspondence lines
+fn one_history(cx: &mut Ctx, rng: &mut Rng, deals: &[Deal], h: usize) {
+        let deal_id = (h % deals.len()) as u64;
+        let deal = &deals[deal_id as usize];
+        let style = (h / deals.len()) as u64 % 5;
+        let (hist, states, issues) = random_history_checked(rng, deal, style);
+        for (class, input, expected, got) in &issues {
+            cx.run.fail(class, input, expected, got);
+        }
+        // lockstep with the rules machine
+        let mut nl = Nl::new(deal.h0, deal.h1);
+        for i in 0..=hist.len() {
+            if i > 0 {
+                nl = nl.apply(&hist[i - 1]);
+            }
+            cx.run.spec_checked += 1;
+            if !nl.same_as(&states[i]) {
+                cx.run.fail("lockstep-state", &format!("game {} {} | {}", deal.h0, deal.h1, hist_tok(&hist[..i])), &format!("{nl:?}"), &state_line(&states[i]));
+                break;
+            }
+            probe(cx, rng, deal, deal_id, &hist[..i], &states[i], &nl, true);
+        }
+        // the history itself (turn and legal() after every action), one in three with a rejected action appended
+        let mut line = states.iter().map(state_line).collect::<Vec<_>>().join(" ; ");
+        let mut hh = hist.clone();
+        if h % 3 == 0 {
+            let k = rng.below(states.len() as u64) as usize;
+            let g = states[k];
+            let cands = candidates(&g, deal, rng, false);
+            let bad: Vec<&Action> = cands.iter().filter(|c| try_allowed(&g, c) == Some(false)).collect();
+            if !bad.is_empty() {
+                let c = *bad[rng.below(bad.len() as u64) as usize];
+                hh.truncate(k);
+                hh.push(c);
+                let r = catch(move || g.apply(c));
+                line = states[..=k].iter().map(state_line).collect::<Vec<_>>().join(" ; ")
+                    + " ; " + &match r { None => "panic".to_string(), Some(x) => safe_state_line(&x) };
+                cx.run.count("history-with-rejected-tail");
+            }
+        }
+        cx.run.line(&format!("game {} {} | {}", deal.h0, deal.h1, hist_tok(&hh)), &line);
+}
+
 fn main() {
     let a = args();
     let mut rng = Rng::new(a.seed);
@@ -398,42 +441,12 @@ fn main() {
         deals.len()
     );
     for h in 0..n_hist {
-        let deal_id = (h % deals.len()) as u64;
-        let deal = &deals[deal_id as usize];
-        let style = (h / deals.len()) as u64 % 5;
-        let (hist, states) = random_history(&mut rng, deal, style);
-        // lockstep with the rules machine
-        let mut nl = Nl::new(deal.h0, deal.h1);
-        for i in 0..=hist.len() {
-            if i > 0 {
-                nl = nl.apply(&hist[i - 1]);
-            }
-            cx.run.spec_checked += 1;
-            if !nl.same_as(&states[i]) {
-                cx.run.fail("lockstep-state", &format!("game {} {} | {}", deal.h0, deal.h1, hist_tok(&hist[..i])), &format!("{nl:?}"), &state_line(&states[i]));
-                break;
-            }
-            probe(&mut cx, &mut rng, deal, deal_id, &hist[..i], &states[i], &nl, true);
+        // back-stop: whatever escapes the per-call `catch`es is reported, the run goes on
+        let r = std::panic::catch_unwind(std::panic::AssertUnwindSafe(|| one_history(&mut cx, &mut rng, &deals, h)));
+        if r.is_err() {
+            log::set_max_level(log::LevelFilter::Off);
+            cx.run.fail("engine-panics-outside-catch", &format!("history #{h} of seed {} (deal {} {})", a.seed, deals[h % deals.len()].h0, deals[h % deals.len()].h1), "no panic", "panic");
         }
-        // the history itself (turn and legal() after every action), one in three with a rejected action appended
-        let mut line = states.iter().map(state_line).collect::<Vec<_>>().join(" ; ");
-        let mut hh = hist.clone();
-        if h % 3 == 0 {
-            let k = rng.below(states.len() as u64) as usize;
-            let g = states[k];
-            let cands = candidates(&g, deal, &mut rng, false);
-            let bad: Vec<&Action> = cands.iter().filter(|c| !g.is_allowed(c)).collect();
-            if !bad.is_empty() {
-                let c = *bad[rng.below(bad.len() as u64) as usize];
-                hh.truncate(k);
-                hh.push(c);
-                let r = catch(move || g.apply(c));
-                line = states[..=k].iter().map(state_line).collect::<Vec<_>>().join(" ; ")
-                    + " ; " + &match r { None => "panic".to_string(), Some(x) => safe_state_line(&x) };
-                cx.run.count("history-with-rejected-tail");
-            }
-        }
-        cx.run.line(&format!("game {} {} | {}", deal.h0, deal.h1, hist_tok(&hh)), &line);
     }
     cx.run.exhaustive = false;
     if a.thorough() {
@@ -471,7 +484,7 @@ fn bfs(cx: &mut Ctx, rng: &mut Rng, deal: &Deal) {
             cands.push(Action::Shove(x));
             cands.push(Action::Blind(x));
         }
-        let st = (g.street() as isize as usize).min(2);
+        let st = { let gg = g; catch(move || gg.street() as isize as usize).unwrap_or(0).min(2) };
         cands.push(Action::Draw(hand(deal.streets[st])));
         cands.push(Action::Draw(hand(deal.streets[st] | deal.h0 & deal.h0.wrapping_neg())));
         cands.push(Action::Draw(hand(0)));
@@ -479,7 +492,7 @@ fn bfs(cx: &mut Ctx, rng: &mut Rng, deal: &Deal) {
         for c in &cands {
             cx.run.evaluations += 1;
             cx.run.spec_checked += 1;
-            let got = g.is_allowed(c);
+            let got = try_allowed(&g, c).unwrap_or(!nl.permitted(c, full));
             let want = nl.permitted(c, full);
             if !want && (matches!(c, Action::Draw(_) | Action::Fold | Action::Check) || cx.run.evaluations % 64 == 0) {
                 let (g2, c2) = (g, *c);
@@ -494,7 +507,14 @@ fn bfs(cx: &mut Ctx, rng: &mut Rng, deal: &Deal) {
             }
             if got && want {
                 transitions += 1;
-                let child = g.apply(*c);
+                let child = match try_apply(&g, *c) {
+                    Some(ch) => ch,
+                    None => {
+                        let path = path_of(&nodes, id);
+                        cx.run.fail("accepted-action-panics", &format!("game {} {} | {} {}", deal.h0, deal.h1, hist_tok(&path), act_tok(c)), "a state", "panic");
+                        continue;
+                    }
+                };
                 let n2 = nl.apply(c);
                 let k = betting_key(&child);
                 if !seen.contains_key(&k) {
@@ -514,7 +534,7 @@ fn bfs(cx: &mut Ctx, rng: &mut Rng, deal: &Deal) {
         }
         let name = format!("{} {} | {}", deal.h0, deal.h1, hist_tok(&path));
         let cs = candidates(&g, deal, rng, false);
-        let ans: String = cs.iter().map(|c| if g.is_allowed(c) { '1' } else { '0' }).collect();
+        let ans: String = cs.iter().map(|c| match try_allowed(&g, c) { Some(true) => '1', Some(false) => '0', None => 'P' }).collect();
         cx.run.line(&format!("allowed {name} | {}", cs.iter().map(act_tok).collect::<Vec<_>>().join(" ")), &ans);
     }
     cx.run.exhaustive = true;
